@@ -76,7 +76,9 @@ TDereg == \/ Logged("Dereg", WDereg)
 
 \* ---- main
 TTick == Logged("Tick", MTick)
-TReg == /\ IsEv("Reg") /\ Consume /\ MReg /\ Ev.ok = (dirGen # 0) /\ UNCHANGED <<kpend, kok>>
+\* ok = FALSE: the directory vanished meanwhile, or the registration failed transiently
+TReg == \/ IsEv("Reg") /\ Consume /\ MReg /\ Ev.ok = (dirGen # 0) /\ UNCHANGED <<kpend, kok>>
+        \/ IsEv("Reg") /\ Consume /\ ~Ev.ok /\ MRegFail /\ UNCHANGED <<kpend, kok>>
 TSchedM == /\ IsEv("Sched") /\ Ev.thr = "m" /\ Consume /\ UNCHANGED <<kpend, kok>>
            /\ MScanSched /\ Head(mscan) = Ev.tag
            /\ SchedFor(Head(mscan), mcontent) = <<[tag |-> Ev.tag, unit |-> IF Ev.add THEN Rec("valid", Ev.v) ELSE None]>>
